@@ -212,9 +212,20 @@ class HamiltonianChain(MarkovChain):
         p = self.posterior(t) * self.inv_temp
         G = zeros(self.n_parameters)
         for i in range(self.n_parameters):
-            delta = zeros(self.n_parameters) + 1
-            delta[i] += 1e-5
-            G[i] = (self.posterior(t * delta) * self.inv_temp - p) / (t[i] * 1e-5)
+            # additive step, so that zero-valued coordinates can be perturbed
+            scale = abs(t[i]) if t[i] != 0.0 else 1.0
+            if self.bounds is not None:
+                # the step must stay small compared to the width of the bounds
+                w = self.bounds.width[i]
+                scale = min(scale, w) if t[i] != 0.0 else w
+            dt = 1e-5 * scale
+            # step toward the interior if the probe point would leave the bounds
+            if self.bounds is not None and t[i] + dt > self.bounds.upper[i]:
+                dt = -dt
+            t_probe = t.copy()
+            t_probe[i] += dt
+            dt = t_probe[i] - t[i]
+            G[i] = (self.posterior(t_probe) * self.inv_temp - p) / dt
         return G
 
     def get_last(self) -> ndarray:
